@@ -196,7 +196,10 @@ def run(ctx, tools, xrun_exe, sets):
         scen = [json.loads(l) for l in txt.splitlines() if l.strip()]
         for sc in scen:
             sc["layout"] = True
-        rc, out, err = C.sh([tools["verifsched"]], inp="\n".join(json.dumps(x) for x in scen) + "\n", timeout=1800)
+        rc, out, err = C.sh([tools["verifsched"]], inp="\n".join(json.dumps(x) for x in scen) + "\n", timeout=C.driver_timeout())
+        if rc == 124:
+            bad.append((None, None, "implementation hung: the scheduler driver did not finish within %ds on set %s" % (C.driver_timeout(), cont)))
+            continue
         results = {}
         for l in out.splitlines():
             try:
@@ -212,7 +215,7 @@ def run(ctx, tools, xrun_exe, sets):
             if mc is None:
                 skipped += 1; continue
             cases.append(mc); keep.append((sc, r))
-        rc2, out2, err2 = C.sh([xrun_exe], inp="\n".join(cases) + "\n", timeout=1800)
+        rc2, out2, err2 = C.sh([xrun_exe], inp="\n".join(cases) + "\n", timeout=C.driver_timeout())
         blocks = out2.split("XCASE ")[1:]
         for (sc, r), blk in zip(keep, blocks):
             n += 1
